@@ -24,6 +24,7 @@ Choices made where the text leaves room (stated here, used by C08/C18):
 from __future__ import annotations
 
 from ref.bits import pack_fields
+from ref.bits import RefInputError  # noqa: E402
 
 # -- TLV type octets (727.0-B-5 table 5-3 "field type" values of 5.4) --------------------
 T_FILESTORE_REQUEST = 0x00
@@ -83,7 +84,7 @@ def lv(value: bytes) -> bytes:
     """LV: length 8 | value (length octets)."""
     value = bytes(value)
     if len(value) > 255:
-        raise AssertionError("reference LV given more than 255 octets")
+        raise RefInputError("reference LV given more than 255 octets")
     return pack_fields([(len(value), 8)]) + value
 
 
@@ -91,7 +92,7 @@ def tlv(tlv_type: int, value: bytes) -> bytes:
     """TLV: type 8 | length 8 | value."""
     value = bytes(value)
     if len(value) > 255:
-        raise AssertionError("reference TLV given more than 255 octets")
+        raise RefInputError("reference TLV given more than 255 octets")
     return pack_fields([(tlv_type, 8), (len(value), 8)]) + value
 
 
@@ -228,7 +229,7 @@ def proxy_put_cancel() -> bytes:
 def transaction_id_fields(source_entity_id: bytes, seq_num: bytes) -> bytes:
     """spare 1 | entity-ID length - 1 (3) | spare 1 | sequence-number length - 1 (3) | ID | seq"""
     if not (1 <= len(source_entity_id) <= 8 and 1 <= len(seq_num) <= 8):
-        raise AssertionError("reference transaction ID widths are 1...8 octets")
+        raise RefInputError("reference transaction ID widths are 1...8 octets")
     return pack_fields([(0, 1), (len(source_entity_id) - 1, 3), (0, 1), (len(seq_num) - 1, 3)]) + bytes(source_entity_id) + bytes(seq_num)
 
 
